@@ -206,3 +206,47 @@ Example u_set_extension_examples :
   /\ u_set_extension [97;46] [] = ([97], true)
   /\ u_set_extension [47;46;46] [120] = ([47;46;46], false).
 Proof. vm_compute. repeat split. Qed.
+
+(* ---------------- C14: the slices handed out for the last component are valid UTF-8 ---------------- *)
+Lemma Valid_split_at_sep a s b : Valid (a ++ s :: b) -> s < 128 -> Valid a /\ Valid b.
+Proof.
+  intros Hv Hs.
+  assert (Hk : (length a < length (a ++ s :: b))%nat) by (rewrite app_length; cbn; lia).
+  assert (Hn : nth (length a) (a ++ s :: b) 0 = s) by (rewrite app_nth2 by (apply le_n); rewrite Nat.sub_diag; reflexivity).
+  destruct (Valid_cut_before_ascii _ Hv (length a) Hk ltac:(rewrite Hn; exact Hs)) as [H1 _].
+  destruct (Valid_cut_after_ascii _ Hv (length a) Hk ltac:(rewrite Hn; exact Hs)) as [_ H2].
+  rewrite firstn_app, firstn_all, Nat.sub_diag in H1. cbn in H1. rewrite app_nil_r in H1.
+  replace (S (length a)) with (length (a ++ [s])) in H2 by (rewrite app_length; cbn; lia).
+  replace (a ++ s :: b) with ((a ++ [s]) ++ b) in H2 by (rewrite <- app_assoc; reflexivity).
+  rewrite skipn_app, skipn_all, Nat.sub_diag in H2. cbn in H2. split; assumption.
+Qed.
+Lemma usep_ascii s : usep s = true -> s < 128.
+Proof. unfold usep. intros H. apply N.eqb_eq in H. subst. reflexivity. Qed.
+(* file name, stem and extension of a valid UTF-8 path are valid UTF-8 (cut on character boundaries) *)
+Theorem u_file_name_valid l n : Valid l -> u_file_name l = Some n -> Valid n.
+Proof.
+  intros Hv H. destruct (u_file_name_decomp l n H) as (before & j & Hl & Hbef & Hj & _).
+  assert (Hnj : Valid (n ++ j)).
+  { destruct Hbef as [-> | (b' & s & -> & Hs)]; [rewrite Hl in Hv; exact Hv|].
+    rewrite Hl, <- app_assoc in Hv. cbn [app] in Hv. apply (Valid_split_at_sep b' s (n ++ j) Hv (usep_ascii s Hs)). }
+  destruct Hj as [-> | (s & t & -> & Hs)]; [rewrite app_nil_r in Hnj; exact Hnj|].
+  apply (Valid_split_at_sep n s t Hnj (usep_ascii s Hs)).
+Qed.
+Theorem u_file_stem_valid l st : Valid l -> u_file_stem l = Some st -> Valid st.
+Proof.
+  intros Hv H. destruct (u_file_name l) as [n|] eqn:En.
+  - pose proof (u_file_name_valid l n Hv En) as Hn.
+    rewrite (u_file_stem_of l n En) in H. inversion H; subst st.
+    destruct (stem_prefix n) as (rest & E & [-> | (e & ->)]).
+    + rewrite app_nil_r in E. rewrite <- E. exact Hn.
+    + rewrite E in Hn. apply (Valid_split_at_sep _ 46 e Hn eq_refl).
+  - unfold u_file_stem, file_stem in H. fold u_file_name in H. rewrite En in H. discriminate.
+Qed.
+Theorem u_extension_valid l e : Valid l -> u_extension l = Some e -> Valid e.
+Proof.
+  intros Hv H. unfold u_extension, extension in H. fold u_file_name in H.
+  destruct (u_file_name l) as [n|] eqn:En; [|discriminate].
+  pose proof (u_file_name_valid l n Hv En) as Hn.
+  pose proof (rsplit_reproduces n) as R. destruct (rsplit_file_at_dot n) as [bf af].
+  rewrite H in R. destruct R as (st & _ & E & _). rewrite E in Hn. apply (Valid_split_at_sep st 46 e Hn eq_refl).
+Qed.
